@@ -74,6 +74,8 @@ def _vals(ch: core.Chooser, shape: tuple, kind: str, nonzero: bool = False) -> d
         pool = [float("nan"), 1.0, -2.0, 0.0, float("nan"), 3.5]
     else:
         pool = [-2.5, -1.0, -0.75, 0.0, 0.0, 0.25, 0.25, 1.0, 1.5, 3.0] if not nonzero else [-2.5, -1.0, -0.5, 0.25, 0.5, 1.0, 2.0]
+        if ch.sub("awkward").chance(_AWKWARD[0]):  # numbers that are not exact in narrow floats, and sums that are not either
+            pool = pool + [0.1, 33.3, 99.9, -0.7, 1.0 / 3]
     # few distinct values => many ties
     if ch.chance(0.4):
         pool = ch.sample(pool, min(len(pool), 3))
@@ -88,6 +90,8 @@ def _vals(ch: core.Chooser, shape: tuple, kind: str, nonzero: bool = False) -> d
 
 
 _FORCED_KIND: List[Optional[str]] = [None]
+_AWKWARD: List[float] = [0.3]
+PRECISION_SENSITIVE = {"mean", "sum", "cumsum", "prod", "inner", "matmul", "outer"}  # where the width of the accumulator shows
 
 
 def _kind(ch: core.Chooser) -> str:
@@ -102,7 +106,9 @@ def _axis_kwargs(ch: core.Chooser, shape: tuple, keepdims: bool = False, tuples:
     nd = len(shape)
     opts: List[Any] = ([None] if none_ok else []) + list(range(nd)) + ([-1] if nd else [])
     if tuples and nd >= 2:
-        opts += [{"tuple": [0, 1]}, {"tuple": [nd - 1, 0]}]
+        opts += [{"tuple": [0, 1]}, {"tuple": [nd - 1, 0]}, {"tuple": [-1, 0]}, {"tuple": [-1, -2]}]
+        if nd >= 3:
+            opts += [{"tuple": [2, 0]}, {"tuple": [1, 2, 0]}, {"tuple": [-2, -3]}]
     kw: Dict[str, Any] = {}
     if opts:
         axis = ch.choice(opts)
@@ -170,7 +176,7 @@ def g_reduce(ch: core.Chooser, name: str) -> dict:
         kind = "bool"
     arg_like = name in ("argmax", "argmin", "cumsum")
     kw = _axis_kwargs(ch.sub("k"), shape, keepdims=name in ("sum", "mean", "any", "all", "amax", "amin", "max", "min", "prod", "count_nonzero"),
-                      tuples=not arg_like and name not in ("prod",))
+                      tuples=not arg_like)
     if name in ("argmax", "argmin", "amax", "amin", "max", "min") and not int(numpy.prod(shape, dtype=int)):
         shape = (2,)
     return {"args": [_vals(ch.sub("a"), shape, kind)], "kwargs": kw}
@@ -385,12 +391,20 @@ def generate(rs: int, tier: str, index: int) -> dict:
         if systematic:
             fn = names[index % len(names)]
             _FORCED_KIND[0] = ["int", "float", "largeint", "largefloat"][index // len(names)]
+        _AWKWARD[0] = 0.7 if fn in PRECISION_SENSITIVE else 0.3
+        probe = not systematic and ch.sub("precision").chance(0.05)
+        if probe:
+            # precision probe: a reduction/product over narrow floats holding numbers that are not exact there, so that
+            # the width of the accumulator decides the last bits of the result
+            fn = ch.sub("precision").choice(sorted(PRECISION_SENSITIVE))
+            _FORCED_KIND[0], _AWKWARD[0] = "float", 1.0
         try:
             spec = TABLE[fn](ch.sub("g"), fn)
         finally:
             _FORCED_KIND[0] = None
+            _AWKWARD[0] = 0.3
         # numpy.full(shape, poly) never dispatches (no array argument): numpoly spelling only
-        if ch.chance(0.2) and not any(isinstance(a, dict) and "pyscalar" in a for a in spec["args"]):
+        if (probe or ch.chance(0.5 if fn in PRECISION_SENSITIVE else 0.2)) and not any(isinstance(a, dict) and "pyscalar" in a for a in spec["args"]):
             # narrower coefficient dtypes (the values are small and exactly representable); not together with Python
             # scalars: numpy treats those as weakly typed (uint8 - 3 wraps), numpoly converts them to int64 polynomials
             # first - a documented difference in promotion, outside "numeric arrays"
@@ -498,7 +512,13 @@ def _to_numpy(res: Any) -> Any:
     return ("val", res)
 
 
-def _compare(a: Any, b: Any, typed: bool, atol: float = 0.0) -> Optional[str]:
+# functions numpoly hands to numpy element-wise / lane-wise on the coefficient arrays: the result is bit-for-bit numpy's,
+# also in float16/float32 (no tolerance for intermediate precision)
+EXACT = {"mean", "sum", "cumsum", "max", "min", "amax", "amin", "absolute", "abs", "negative", "positive", "add", "subtract", "around", "round",
+         "rint", "floor", "ceil", "square", "multiply", "true_divide", "divide", "floor_divide", "remainder", "maximum", "minimum"}
+
+
+def _compare(a: Any, b: Any, typed: bool, atol: float = 0.0, exact: bool = False) -> Optional[str]:
     """a: numpy's result, b: numpoly's (converted)."""
     ka, va = _to_numpy(a)
     kb, vb = b
@@ -506,7 +526,7 @@ def _compare(a: Any, b: Any, typed: bool, atol: float = 0.0) -> Optional[str]:
         if kb != "seq" or len(va) != len(vb):
             return f"sequence of {len(va)} vs {kb} {len(vb) if kb == 'seq' else ''}"
         for i, (x, y) in enumerate(zip(va, vb)):
-            msg = _compare(x[1] if isinstance(x, tuple) else x, y, typed, atol)
+            msg = _compare(x[1] if isinstance(x, tuple) else x, y, typed, atol, exact)
             if msg:
                 return f"[{i}] {msg}"
         return None
@@ -526,6 +546,8 @@ def _compare(a: Any, b: Any, typed: bool, atol: float = 0.0) -> Optional[str]:
         rtol = 1e-12 if not atol else 1e-9
         if x.dtype in (numpy.float32, numpy.float16, numpy.complex64) or y.dtype in (numpy.float32, numpy.float16, numpy.complex64):
             rtol = 2e-3 if numpy.float16 in (x.dtype, y.dtype) else 1e-5
+        if exact:
+            rtol = 0.0
         if not numpy.allclose(x, y, rtol=rtol, atol=atol, equal_nan=True):
             return f"values {y.tolist()}, numpy gives {x.tolist()}"
     return None
@@ -664,7 +686,7 @@ class Runner:
             if has_tie or isinstance(got, numpoly.ndpoly):
                 self.sigs.add(f"{core.H(core.jdump(step))}|{pol}|{fill}")
             # numpy's det goes through a floating-point LU factorisation; numpoly expands exactly
-            msg = _compare(want, conv, fn in TYPED, atol=1e-9 if fn == "det" else 0.0)
+            msg = _compare(want, conv, fn in TYPED, atol=1e-9 if fn == "det" else 0.0, exact=fn in EXACT)
             if msg:
                 clause = "ties-first-occurrence" if fn in ("argmax", "argmin") else ("extreme-along-axis" if fn in ORDERING else "matches-numpy")
                 self.violate(clause, fn, sid, f"[{pol}/{fill}] kwargs={step['kwargs']}: {msg}", dict(traits, env="default" if (pol, fill) == ("stable", "zero") else "adversarial"))
